@@ -240,7 +240,7 @@ class ParserFeed(ProducerContract):
             s['checked'] = True
             aw = s['awaiting']
             v = s['value']
-            st.oblige('send:value-is-a-fresh-copy-not-the-receive-buffer', BoolVal(isinstance(v, MRef) and v.ident != s['buffer_ident']), tags=('C01',))
+            st.oblige('send:value-is-a-fresh-copy-not-the-receive-buffer', BoolVal(isinstance(v, MRef) and v.ident != s['buffer_ident']), tags=('C01', 'C02'))
             j = fresh('sj')
             S = st.ghost['S']
             st.oblige('send:value-is-exactly-the-next-bytes-of-the-stream(no gap, no overlap, in order)',
